@@ -25,6 +25,8 @@ const (
 	kStruct
 	kPtrStruct
 	kError
+	kIface // net.Interface / *net.Interface (Go.NetInterface of the Prelude)
+	kFunc  // a function value (always monadic: its result is `R T`)
 	kOther
 )
 
@@ -32,7 +34,12 @@ func (x *X) kindOf(t types.Type) kind {
 	if n, ok := t.(*types.Named); ok && n.Obj().Name() == "error" && n.Obj().Pkg() == nil {
 		return kError
 	}
+	if strings.TrimPrefix(t.String(), "*") == "net.Interface" {
+		return kIface
+	}
 	switch u := t.Underlying().(type) {
+	case *types.Signature:
+		return kFunc
 	case *types.Basic:
 		switch u.Kind() {
 		case types.Bool, types.UntypedBool:
@@ -83,7 +90,7 @@ func inModule(t types.Type) bool {
 
 // fieldKind: like kindOf, but a pointer field is never representable (it would alias).
 func (x *X) fieldKind(t types.Type) kind {
-	if k := x.kindOf(t); k != kPtrStruct {
+	if k := x.kindOf(t); k != kPtrStruct && k != kFunc {
 		return k
 	}
 	return kOther
@@ -111,6 +118,19 @@ func (x *X) leanType(t types.Type, result bool) string {
 		return "Bytes"
 	case kError:
 		return "GoErr"
+	case kIface:
+		return "Go.NetInterface"
+	case kFunc:
+		sig := t.Underlying().(*types.Signature)
+		var parts []string
+		for i := 0; i < sig.Params().Len(); i++ {
+			parts = append(parts, x.leanType(sig.Params().At(i).Type(), false))
+		}
+		var rs []string
+		for i := 0; i < sig.Results().Len(); i++ {
+			rs = append(rs, x.leanType(sig.Results().At(i).Type(), true))
+		}
+		return "(" + strings.Join(append(parts, "R "+tupleType(rs)), " → ") + ")"
 	case kList:
 		return "(List " + x.leanType(t.Underlying().(*types.Slice).Elem(), false) + ")"
 	case kStruct:
@@ -164,6 +184,8 @@ func (x *X) zero(t types.Type) string {
 		return "([] : Bytes)"
 	case kError:
 		return "(none : GoErr)"
+	case kIface:
+		return "Go.NetInterface.zero"
 	case kList:
 		return "([] : " + x.leanType(t, false) + ")"
 	case kStruct:
@@ -218,4 +240,13 @@ func leanIdent(s string) string {
 		return s + "_"
 	}
 	return s
+}
+
+// dropped: parameters that carry nothing the translated code computes with (logging handles, contexts).
+func dropped(t types.Type) bool {
+	switch strings.TrimPrefix(t.String(), "*") {
+	case "context.Context", "log.Logger", modPath + "lib/server/ylog.Ylog":
+		return true
+	}
+	return false
 }
